@@ -404,6 +404,11 @@ def midi_pitch_to_frequency(
     freq : float or ndarray
         Frequency of the note(s).
     """
+    # (unsigned integers would wrap around below 9)
+    if isinstance(midi_pitch, np.ndarray):
+        midi_pitch = midi_pitch.astype(float)
+    else:
+        midi_pitch = float(midi_pitch)
     freq = (a4 / 32) * (2 ** ((midi_pitch - 9) / 12))
     return freq
 
